@@ -279,7 +279,13 @@ namespace adept {
 	index_start = i*offset + j_start;
 	index_stride = 1;
       }
-      typedef BandEngine<COL_MAJOR,UDiags,LDiags> transpose_engine;
+      // The transpose of a diagonal matrix is the same matrix held
+      // in the same way; the column-major engine cannot be used for
+      // it since with a packed offset of zero (LDiags+UDiags) it
+      // cannot step along a row
+      typedef typename if_then_else<(LDiags+UDiags == 0),
+	BandEngine<ROW_MAJOR,0,0>,
+	BandEngine<COL_MAJOR,UDiags,LDiags> >::type transpose_engine;
       template <bool IsActive, typename Type>
       typename internal::enable_if<!IsActive,Type>::type
       get_scalar(Index i, Index j, Index dim, Index offset, 
